@@ -340,6 +340,8 @@ def check(prop, tier):
         "build_s": round(build_s, 1),
         "exhaustive": bool(plan.get("exhaustive", False)),
     }
+    if plan.get("exhaustive_parts"):
+        cov["exhaustive_parts"] = plan["exhaustive_parts"]
     if plan.get("explanation"):
         cov["explanation"] = plan["explanation"]
     if notes:
